@@ -283,7 +283,7 @@ class C02(ScheduleEnumerationMixin, EngineCheck):
 
         @st.composite
         def s(draw):
-            case = draw(G.cases(**kw))
+            case = draw(G.cases(collab_scheds=True, **kw))
             case['collab'] = draw(collabs())
             return _sanitize(case)
 
